@@ -2,7 +2,7 @@
    time, discrete and nested weighted compounds.  Statements only. *)
 From Coq Require Import List Bool Arith Reals Floats.
 From Coq Require Import ZArith.
-From OmplV Require Import SpacesModel SpacesReal SpacesFloat VssModel VssProofs.
+From OmplV Require Import SpacesModel SpacesReal SpacesFloat SamplersModel SamplersReal VssModel VssProofs.
 Import ListNotations.
 Local Open Scope R_scope.
 
@@ -38,6 +38,23 @@ Section C08.
   Theorem C08_so2_samplers_in_bounds : forall near dist sd u g, 0 <= u < 1 ->
     so2_inb (so2_sample_uniform A u) /\ so2_inb (so2_sample_near A near dist u) /\ so2_inb (so2_sample_gauss A near sd g).
   Proof. exact (so2_samplers_inb fm fl eps fm_range fm_small fm_cong). Qed.
+  (* every default sampler of every modelled space — compounds of any nesting, with the importance weighting of
+     CompoundStateSampler — returns a state within the bounds: uniform and near for every tape of variates in [0,1), Gaussian
+     for any variates; near / mean state in bounds, distance >= 0, any deviation.  (floor is only used through the three
+     facts below; [need] bounds the number of variates consumed.) *)
+  Hypothesis eps_pos : 0 < eps.
+  Hypothesis fl_int : forall (n : Z) (r : R), 0 <= r < 1 -> fl (IZR n + r) = IZR n.
+  Hypothesis fl_mono : forall x y, x <= y -> fl x <= fl y.
+  Hypothesis fl_integral : forall x, exists n, fl x = IZR n.
+  Theorem C08_uniform_sampler_in_bounds : forall sp, wfs fm fl eps sp -> forall tape, Forall unit01 tape -> (need fm fl eps sp <= length tape)%nat ->
+    inb fm fl eps sp (fst (g_sample_uniform A sp tape)).
+  Proof. intros sp Hw tape Ht Hn. apply (sample_uniform_inb fm fl eps fl_int fl_mono fl_integral fm_range fm_small fm_cong sp Hw tape Ht Hn). Qed.
+  Theorem C08_near_sampler_in_bounds : forall sp, wfs fm fl eps sp -> forall near dist tape, inb fm fl eps sp near -> 0 <= dist -> Forall unit01 tape ->
+    (need fm fl eps sp <= length tape)%nat -> inb fm fl eps sp (fst (g_sample_near A Rdiv sp near dist tape)).
+  Proof. intros sp Hw near dist tape H1 H2 H3 H4. apply (sample_near_inb fm fl eps eps_pos fl_int fl_mono fl_integral fm_range fm_small fm_cong sp Hw near dist tape H1 H2 H3 H4). Qed.
+  Theorem C08_gaussian_sampler_in_bounds : forall sp, wfs fm fl eps sp -> forall mean sd tape, inb fm fl eps sp mean ->
+    (need fm fl eps sp <= length tape)%nat -> inb fm fl eps sp (fst (g_sample_gauss A Rdiv sp mean sd tape)).
+  Proof. intros sp Hw mean sd tape H1 H2. apply (sample_gauss_inb fm fl eps fl_integral fm_range fm_small fm_cong sp Hw mean sd tape H1 H2). Qed.
 End C08.
 
 Print Assumptions C08_enforce_bounds.
@@ -47,6 +64,9 @@ Print Assumptions C08_rv_uniform_in_bounds.
 Print Assumptions C08_rv_near_in_bounds.
 Print Assumptions C08_rv_gaussian_in_bounds.
 Print Assumptions C08_so2_samplers_in_bounds.
+Print Assumptions C08_uniform_sampler_in_bounds.
+Print Assumptions C08_near_sampler_in_bounds.
+Print Assumptions C08_gaussian_sampler_in_bounds.
 
 (* ---- valid-state samplers: for every underlying sampler behaviour (tape of drawn states), validity predicate,
    number of attempts.  SpaceInformation::isValid is the user's checker alone, so in-bounds-ness of a returned state
